@@ -733,7 +733,7 @@ class Representation:
 
         hom_1 = hom
         if hom_in_wrapped:
-            hom_1 = (lambda M: hom(self.__class__.unwrap_func(M)))
+            hom_1 = (lambda M: hom(self.__class__.wrap_func(M)))
 
         hom_2 = hom_1
         if hom_out_wrapped:
